@@ -2,12 +2,16 @@
 // Shared ops of mjdrv_common.h (model, data, set, forward ...) plus:
 //   mkscene <m> <cap> <status>       mjv_makeScene(model m, capacity); the geom buffer is replaced by one of cap + 4
 //                                    slots whose last 4 slots are a guard pattern; scn.status preset    -> ok
-//   vopt <gmask> <smask> <static>    mjv_defaultOption, ALL flags cleared, label/frame none, geomgroup / sitegroup
-//                                    from the bit masks, flags[mjVIS_STATIC] = static                  -> ok
+//   vopt <gmask> <smask> <static> [<jmask> <tmask> <amask> <sources>]
+//                                    mjv_defaultOption, ALL flags cleared, label/frame none; geomgroup / sitegroup /
+//                                    jointgroup / tendongroup / actuatorgroup from the bit masks (flex and skin groups
+//                                    off), flags[mjVIS_STATIC] = static, sources: bit 1 mjVIS_JOINT, 2 mjVIS_TENDON,
+//                                    4 mjVIS_ACTUATOR                                                  -> ok
 //   update <d> <catmask>             mjv_updateScene(m, d, opt, NULL, cam, catmask, scn)
 //   addgeoms <d> <catmask>           mjv_addGeoms(m, d, opt, NULL, catmask, scn)
 //     -> "<ngeom> <status> <warnings raised> <guard ok 0|1> <deterministic 0|1|-> | item;item;..."
-//        item = kind,objid,category,segid,type,px,py,pz,m0..m8,sx,sy,sz   (kind: geom | site | objtype number)
+//        item = kind,objid,category,segid,type,px,py,pz,m0..m8,sx,sy,sz
+//        (kind: geom | site | tendon | joint | actuator | objtype number)
 //        deterministic (update only): the same call on a second, fresh scene with the same capacity and status gives
 //        bytewise the same ngeom geoms
 #include "mjdrv_common.h"
@@ -63,14 +67,19 @@ static bool scene_extra(const std::vector<std::string>& t, const std::vector<std
   }
   if (op == "vopt") {
     unsigned gm = (unsigned)atoi(t.at(1).c_str()), sm = (unsigned)atoi(t.at(2).c_str());
+    unsigned jm = t.size() > 4 ? (unsigned)atoi(t[4].c_str()) : 0, tm = t.size() > 5 ? (unsigned)atoi(t[5].c_str()) : 0;
+    unsigned am = t.size() > 6 ? (unsigned)atoi(t[6].c_str()) : 0, src = t.size() > 7 ? (unsigned)atoi(t[7].c_str()) : 0;
     mjv_defaultOption(&g_opt);
     for (int k = 0; k < mjNVISFLAG; k++) g_opt.flags[k] = 0;
     g_opt.label = mjLABEL_NONE; g_opt.frame = mjFRAME_NONE;
     for (int k = 0; k < mjNGROUP; k++) {
       g_opt.geomgroup[k] = (gm >> k) & 1; g_opt.sitegroup[k] = (sm >> k) & 1;
-      g_opt.jointgroup[k] = g_opt.tendongroup[k] = g_opt.actuatorgroup[k] = g_opt.flexgroup[k] = g_opt.skingroup[k] = 0;
+      g_opt.jointgroup[k] = (jm >> k) & 1; g_opt.tendongroup[k] = (tm >> k) & 1; g_opt.actuatorgroup[k] = (am >> k) & 1;
+      g_opt.flexgroup[k] = g_opt.skingroup[k] = 0;
     }
     g_opt.flags[mjVIS_STATIC] = (mjtByte)atoi(t.at(3).c_str());
+    g_opt.flags[mjVIS_JOINT] = (src & 1) ? 1 : 0; g_opt.flags[mjVIS_TENDON] = (src & 2) ? 1 : 0;
+    g_opt.flags[mjVIS_ACTUATOR] = (src & 4) ? 1 : 0;
     printf("ok\n"); return true;
   }
   if (op == "update" || op == "addgeoms") {
@@ -101,6 +110,9 @@ static bool scene_extra(const std::vector<std::string>& t, const std::vector<std
       const mjvGeom& g = g_scn.geoms[k];
       if (g.objtype == mjOBJ_GEOM) printf("%sgeom", k ? ";" : " ");
       else if (g.objtype == mjOBJ_SITE) printf("%ssite", k ? ";" : " ");
+      else if (g.objtype == mjOBJ_TENDON) printf("%stendon", k ? ";" : " ");
+      else if (g.objtype == mjOBJ_JOINT) printf("%sjoint", k ? ";" : " ");
+      else if (g.objtype == mjOBJ_ACTUATOR) printf("%sactuator", k ? ";" : " ");
       else printf("%s%d", k ? ";" : " ", g.objtype);
       printf(",%d,%d,%d,%d", g.objid, g.category, g.segid, g.type);
       for (int j = 0; j < 3; j++) printf(",%.9g", g.pos[j]);
